@@ -243,6 +243,20 @@ def deep_directed_def(rng):
     return GDef("perm", gens, central, tag="deep-directed")
 
 
+def many_layer_directed_def(rng, lo=66, hi=135):
+    """Z_a x Z_b as two disjoint directed cycles with one marked point each: a + b - 1 >= 67 layers, orbit a*b, and an
+    edge from layer x + b - 1 back into layer x for every x (so every old layer is re-entered from a later one)."""
+    a, b = rng.randint(lo, hi), rng.randint(2, 5)
+    n = a + b
+    g1 = [(i + 1) % a for i in range(a)] + list(range(a, n))
+    g2 = list(range(a)) + [a + (i + 1) % b for i in range(b)]
+    central = [0] * n
+    central[rng.randrange(a)] = 1
+    central[a + rng.randrange(b)] = 1
+    gens = [g1, g2] if rng.random() < 0.7 else [g2, g1]
+    return GDef("perm", gens, central, tag="many-layer-directed")
+
+
 def duplicate_neighbour_def(rng):
     """Graphs in which a state has the SAME neighbour under several generators (coset graphs where many generators
     fix a state, or a generator listed twice at low indices) and layers of a few dozen states."""
